@@ -5,24 +5,31 @@ From Coq Require Import List NArith ZArith Bool Lia.
 From SwiftMT Require Import Base.Bytes Scenario.Lang Scenario.Sound gen.Scenarios.
 Import ListNotations.
 
-(* the leaves that do not fit, for the diagnosis the check prints: index, lower and upper length *)
+(* the abstract value of every generator, computed once *)
+Definition kinds_abs : list aval := Eval vm_compute in map aklang kinds.
+
+Lemma gen_kinds_abs : map aklang kinds = kinds_abs.
+Proof. vm_cast_no_check (eq_refl kinds_abs). Qed.
+
+(* the leaves that do not fit, for the diagnosis: index, lower and upper length *)
 Definition failing_leaves : list (N * N * N) :=
   flat_map (fun il => let '(i, l) := il in
-    if leaf_ok reqs l then [] else
+    if leaf_ok kinds_abs reqs l then [] else
       let '(_, _, t) := l in
-      match abs t with
+      match abs kinds_abs t with
       | V a => [(N.of_nat i, N.of_nat (v_lo a), N.of_nat (v_hi a))]
       | _ => [(N.of_nat i, 0%N, 0%N)]
       end) (combine (seq 0 (length distinct_leaves)) distinct_leaves).
 
-Lemma gen_leaves_ok : forallb (leaf_ok reqs) distinct_leaves = true.
+Lemma gen_leaves_ok : forallb (leaf_ok kinds_abs reqs) distinct_leaves = true.
 Proof. vm_cast_no_check (eq_refl true). Qed.
 
 Lemma gen_indices_ok : indices_ok (length distinct_leaves) scenario_leaves = true.
 Proof. vm_cast_no_check (eq_refl true). Qed.
 
 (* every constrained leaf of every scenario file, in every draw, meets one of the shapes its component requires *)
-Definition every_leaf_fits := table_fits distinct_leaves reqs scenario_leaves gen_leaves_ok gen_indices_ok.
+Definition every_leaf_fits :=
+  table_fits kinds kinds_abs distinct_leaves reqs scenario_leaves gen_kinds_abs gen_leaves_ok gen_indices_ok.
 
 (* not vacuous: generators occur among the leaves, under a cut *)
 Example some_leaf_has_a_generator :
